@@ -556,4 +556,256 @@ theorem replay_inv (hinv : TInv k H losers win) (hw : win 0 = (w0 : Int))
 
 end replay
 
+
+/-! ## runBound -/
+
+section runbound
+variable {k : Nat} {H : Heads} {losers : List Int} {win : Nat → Int} {w0 : Nat} {bufs : List Buf}
+
+/-- at a path node the stored loser is the winner of the subtree hanging off the path -/
+theorem loser_is_sibling (hinv : TInv k H losers win) (hw : win 0 = (w0 : Int))
+    {pc oc : Nat} (hpc : OnPath k w0 pc) (h1 : 1 ≤ pc) (h2 : 1 ≤ oc) (hpar : par oc = par pc)
+    (hne : oc ≠ pc) (hlt : par pc < k) : losers.getD (par pc) (-1) = win oc := by
+  have hwinb : win pc = (w0 : Int) := path_win hinv hw pc hpc
+  have hwino : win (par pc) = (w0 : Int) := path_win hinv hw _ (onPath_par hpc)
+  obtain ⟨hset, _⟩ := hinv.node (par pc) hlt
+  have hc1 := child_cases h1
+  have hc2 := child_cases h2
+  rw [hpar] at hc2
+  rcases hc1 with e1 | e1 <;> rcases hc2 with e2 | e2
+  · omega
+  · rw [← e1, ← e2, hwinb, hwino] at hset
+    rcases hset with ⟨a1, a2⟩ | ⟨a1, _⟩
+    · rw [a1, a2]
+    · exact a1
+  · rw [← e1, ← e2, hwinb, hwino] at hset
+    rcases hset with ⟨a1, _⟩ | ⟨a1, a2⟩
+    · exact a1
+    · rw [a1, a2]
+  · omega
+
+/-- every path node below the leaf has a child on the path -/
+theorem onPath_child : ∀ j, up j (k + w0) < k + w0 →
+    ∃ pc, 1 ≤ pc ∧ OnPath k w0 pc ∧ par pc = up j (k + w0)
+  | 0, h => by simp only [up] at h; omega
+  | j + 1, h => by
+    by_cases h1 : 1 ≤ up j (k + w0)
+    · exact ⟨up j (k + w0), h1, ⟨j, rfl⟩, rfl⟩
+    · have h0 : up j (k + w0) = 0 := by omega
+      have e : up (j + 1) (k + w0) = 0 := by simp only [up, h0, par]
+      rw [e, ← h0]
+      exact onPath_child j (by rw [h0]; rw [e] at h; exact h)
+
+theorem first_on_path {P : Nat → Prop} : ∀ N, ¬ P 0 → P N → ∃ n, n < N ∧ ¬ P n ∧ P (n + 1)
+  | 0, h0, hN => absurd hN h0
+  | N + 1, h0, hN => by
+    by_cases h : P N
+    · obtain ⟨n, h1, h2, h3⟩ := first_on_path N h0 h
+      exact ⟨n, by omega, h2, h3⟩
+    · exact ⟨N, by omega, h, hN⟩
+
+/-- a live input other than the winner is bounded below by the loser stored at some path node -/
+theorem path_loser_le (hinv : TInv k H losers win) (hw : win 0 = (w0 : Int)) (x : Nat) (hx : x < k)
+    (hxw : x ≠ w0) (ha : H.alive x = true) :
+    ∃ (o l : Nat), OnPath k w0 o ∧ o < k ∧ losers.getD o (-1) = (l : Int) ∧ l ≠ w0 ∧ H.alive l = true ∧
+      H.key l ≤ H.key x := by
+  have hw0k : w0 < k := (hinv.chain 0 w0 hw).2.1
+  have hleafx : win (k + x) = (x : Int) := by
+    rw [hinv.leaf (k + x) (by omega)]; simp [leafPlayer, hx, ha]
+  have h0 : ¬ OnPath k w0 (up 0 (k + x)) := by
+    intro hon
+    have := path_win hinv hw _ hon
+    simp only [up] at this
+    rw [hleafx] at this; omega
+  have hN : OnPath k w0 (up (k + x) (k + x)) := by
+    rw [up_zero_of_le _ _ (Nat.le_refl _)]
+    exact ⟨k + w0, up_zero_of_le _ _ (Nat.le_refl _)⟩
+  obtain ⟨n, _, hoff, hon⟩ := first_on_path (P := fun n => OnPath k w0 (up n (k + x))) (k + x) h0 hN
+  generalize hoc : up n (k + x) = oc at hoff hon
+  have hon' : OnPath k w0 (par oc) := by simpa only [up, hoc] using hon
+  have hoc2k : oc ≤ 2 * k := by rw [← hoc]; have := up_le n (k + x); omega
+  have hoc1 : 1 ≤ oc := by
+    rcases Nat.eq_zero_or_pos oc with h | h
+    · exfalso; apply hoff; rw [h]; exact ⟨k + w0, up_zero_of_le _ _ (Nat.le_refl _)⟩
+    · exact h
+  have hok : par oc < k := by simp only [par]; omega
+  obtain ⟨j, hj⟩ := hon'
+  obtain ⟨pc, hpc1, hpcon, hpcpar⟩ := onPath_child (k := k) (w0 := w0) j (by omega)
+  rw [hj] at hpcpar
+  have hne : oc ≠ pc := fun hh => hoff (hh ▸ hpcon)
+  have hl := loser_is_sibling hinv hw hpcon hpc1 hoc1 hpcpar.symm hne (by rw [hpcpar]; exact hok)
+  rw [hpcpar] at hl
+  -- the winner of the subtree at oc is below x
+  have hle := hinv.le_up n (k + x) (by omega)
+  rw [hoc, hleafx, pk_nat ha] at hle
+  cases hp : H.pk (win oc) with
+  | none => rw [hp] at hle; simp [leInf] at hle
+  | some v =>
+    obtain ⟨l, hlw, hal⟩ := pk_isSome (p := win oc) (by rw [hp]; rfl)
+    rw [hlw, pk_nat hal, leInf_some] at hle
+    refine ⟨par oc, l, ⟨j, hj⟩, hok, by rw [hl, hlw], ?_, hal, hle⟩
+    intro hh; subst hh
+    exact hoff (win_onPath hinv hlw)
+
+theorem runBoundStep_spec (o : Nat) (acc : Option Row) :
+    (∀ b, acc = some b → ∃ b', runBoundStep bufs losers o acc = some b' ∧ b'.key ≤ b.key) ∧
+    (0 ≤ losers.getD o (-1) → ∃ b', runBoundStep bufs losers o acc = some b' ∧
+        b'.key ≤ (headOf bufs (losers.getD o (-1))).key) ∧
+    (∀ b', runBoundStep bufs losers o acc = some b' →
+        acc = some b' ∨ (0 ≤ losers.getD o (-1) ∧ b' = headOf bufs (losers.getD o (-1)))) := by
+  unfold runBoundStep
+  split
+  · rename_i h0
+    have h0' : 0 ≤ losers.getD o (-1) := by simpa using h0
+    cases acc with
+    | none =>
+      refine ⟨by simp, fun _ => ⟨_, rfl, Int.le_refl _⟩, ?_⟩
+      intro b' hb'; simp at hb'; exact Or.inr ⟨h0', hb'.symm⟩
+    | some b =>
+      simp only
+      split
+      · rename_i hlt
+        have := cmp_lt.mp hlt
+        refine ⟨?_, fun _ => ⟨_, rfl, Int.le_refl _⟩, ?_⟩
+        · intro b0 hb0; cases hb0; exact ⟨_, rfl, by omega⟩
+        · intro b' hb'; simp at hb'; exact Or.inr ⟨h0', hb'.symm⟩
+      · rename_i hlt
+        have : ¬ (headOf bufs (losers.getD o (-1))).key < b.key := fun h => hlt (cmp_lt.mpr h)
+        refine ⟨?_, fun _ => ⟨_, rfl, by omega⟩, ?_⟩
+        · intro b0 hb0; cases hb0; exact ⟨_, rfl, Int.le_refl _⟩
+        · intro b' hb'; exact Or.inl hb'
+  · rename_i h0
+    have h0' : ¬ 0 ≤ losers.getD o (-1) := by simpa using h0
+    refine ⟨fun b hb => ⟨b, hb, Int.le_refl _⟩, fun h => absurd h h0', fun b' hb' => Or.inl hb'⟩
+
+theorem runBoundLoop_spec : ∀ (f o : Nat) (acc : Option Row), o < f →
+    (∀ b, acc = some b → ∃ b', runBoundLoop bufs losers f o acc = some b' ∧ b'.key ≤ b.key) ∧
+    (∀ n, 0 ≤ losers.getD (up n o) (-1) → ∃ b', runBoundLoop bufs losers f o acc = some b' ∧
+        b'.key ≤ (headOf bufs (losers.getD (up n o) (-1))).key) ∧
+    (∀ b', runBoundLoop bufs losers f o acc = some b' →
+        acc = some b' ∨ ∃ n, 0 ≤ losers.getD (up n o) (-1) ∧ b' = headOf bufs (losers.getD (up n o) (-1)))
+  | 0, o, acc, h => by omega
+  | f + 1, o, acc, h => by
+    obtain ⟨s1, s2, s3⟩ := runBoundStep_spec (bufs := bufs) (losers := losers) o acc
+    simp only [runBoundLoop]
+    split
+    · rename_i h0
+      subst h0
+      refine ⟨s1, ?_, ?_⟩
+      · intro n hn; rw [up_zero] at hn ⊢; exact s2 hn
+      · intro b' hb'
+        rcases s3 b' hb' with h | h
+        · exact Or.inl h
+        · exact Or.inr ⟨0, h⟩
+    · rename_i h0
+      have hpar : (o - 1) / 2 = par o := rfl
+      rw [hpar]
+      obtain ⟨r1, r2, r3⟩ := runBoundLoop_spec f (par o) (runBoundStep bufs losers o acc)
+        (by simp only [par]; omega)
+      refine ⟨?_, ?_, ?_⟩
+      · intro b hb
+        obtain ⟨b1, e1, l1⟩ := s1 b hb
+        obtain ⟨b2, e2, l2⟩ := r1 b1 e1
+        exact ⟨b2, e2, by omega⟩
+      · intro n hn
+        cases n with
+        | zero =>
+          obtain ⟨b1, e1, l1⟩ := s2 hn
+          obtain ⟨b2, e2, l2⟩ := r1 b1 e1
+          exact ⟨b2, e2, by simp only [up] at l1 ⊢; omega⟩
+        | succ n =>
+          rw [up_succ'] at hn ⊢
+          exact r2 n hn
+      · intro b' hb'
+        rcases r3 b' hb' with h | ⟨n, hn⟩
+        · rcases s3 b' h with h' | h'
+          · exact Or.inl h'
+          · exact Or.inr ⟨0, h'⟩
+        · exact Or.inr ⟨n + 1, by rw [up_succ']; exact hn⟩
+
+/-- `runBound_min`: the bound computed over the winner's path is the minimum head among the live
+    inputs other than the winner (`none` iff there is none) -/
+theorem runBound_min (hinv : TInv k H losers win) (hw : win 0 = (w0 : Int))
+    (hb : ∀ x, x ≠ w0 → H.alive x = true → (headOf bufs (x : Int)).key = H.key x) :
+    (∀ x, x < k → x ≠ w0 → H.alive x = true →
+        ∃ b, runBoundLoop bufs losers k (par (k + w0)) none = some b ∧ b.key ≤ H.key x) ∧
+    (∀ b, runBoundLoop bufs losers k (par (k + w0)) none = some b →
+        ∃ x, x < k ∧ x ≠ w0 ∧ H.alive x = true ∧ b = headOf bufs (x : Int)) := by
+  have hw0k : w0 < k := (hinv.chain 0 w0 hw).2.1
+  obtain ⟨_, r2, r3⟩ := runBoundLoop_spec (bufs := bufs) (losers := losers) k (par (k + w0)) none
+    (by simp only [par]; omega)
+  have honp : OnPath k w0 (par (k + w0)) := ⟨1, rfl⟩
+  constructor
+  · intro x hx hxw ha
+    obtain ⟨o, l, ⟨j, hj⟩, hok, hl, hlw, hal, hle⟩ := path_loser_le hinv hw x hx hxw ha
+    -- o is a path node below the leaf: it is an ancestor of the first path node
+    have hj1 : 1 ≤ j := by
+      rcases Nat.eq_zero_or_pos j with h | h
+      · subst h; simp only [up] at hj; omega
+      · exact h
+    obtain ⟨j', rfl⟩ := Nat.exists_eq_add_of_le hj1
+    have hj' : up j' (par (k + w0)) = o := by rw [← hj, Nat.add_comm 1 j', up_succ']
+    obtain ⟨b, e, hbl⟩ := r2 j' (by rw [hj', hl]; omega)
+    refine ⟨b, e, ?_⟩
+    rw [hj', hl, hb l hlw hal] at hbl
+    omega
+  · intro b hbb
+    rcases r3 b hbb with h | ⟨n, hn0, hn⟩
+    · cases h
+    · obtain ⟨l, hl⟩ : ∃ l : Nat, losers.getD (up n (par (k + w0))) (-1) = (l : Int) :=
+        ⟨(losers.getD (up n (par (k + w0))) (-1)).toNat, by omega⟩
+      have hon : OnPath k w0 (up n (par (k + w0))) := onPath_up honp n
+      have hlt : up n (par (k + w0)) < k := by
+        have := up_le n (par (k + w0)); simp only [par] at this ⊢; omega
+      -- the stored loser is the winner of one of the children
+      obtain ⟨hset, _⟩ := hinv.node _ hlt
+      have hwl : ∃ c, win c = (l : Int) ∧ par c = up n (par (k + w0)) ∧ 1 ≤ c := by
+        rcases hset with ⟨e, _⟩ | ⟨e, _⟩
+        · exact ⟨_, by rw [← e, hl], by simp only [par]; omega, by omega⟩
+        · exact ⟨_, by rw [← e, hl], by simp only [par]; omega, by omega⟩
+      obtain ⟨c, hc, hcpar, hc1⟩ := hwl
+      obtain ⟨hal, hlk, _⟩ := hinv.chain c l hc
+      refine ⟨l, hlk, ?_, hal, by rw [hn, hl]⟩
+      -- l = w0 would put both children of the node on the path with the same winner
+      intro hlw; subst hlw
+      have hcon := win_onPath hinv hc
+      obtain ⟨j, hj⟩ := hon
+      have hjlt : up j (k + l) < k + l := by rw [hj]; omega
+      obtain ⟨pc, hpc1, hpcon, hpcpar⟩ := onPath_child (k := k) (w0 := l) j hjlt
+      rw [hj] at hpcpar
+      obtain ⟨n1, hn1⟩ := hcon
+      obtain ⟨n2, hn2⟩ := hpcon
+      have hceq : c = pc := onPath_unique hn1 hn2 (by rw [hcpar, hpcpar]) hc1 hpc1
+      subst hceq
+      -- then the stored loser would be the winner of the other child, which is off the path
+      have hwinp := path_win hinv hw _ ⟨j, hj⟩
+      rcases child_cases hc1 with e | e
+      · rw [hcpar] at e
+        rcases hset with ⟨a1, a2⟩ | ⟨a1, a2⟩
+        · rw [hwinp] at a2
+          have := win_onPath hinv a2.symm
+          obtain ⟨n3, hn3⟩ := this
+          have := onPath_unique hn3 hn1 (by rw [hcpar]; simp only [par]; omega) (by omega) hc1
+          omega
+        · rw [hwinp] at a2
+          rw [hl] at a1
+          have := win_onPath hinv a1.symm
+          obtain ⟨n3, hn3⟩ := this
+          have := onPath_unique hn3 hn1 (by rw [hcpar]; simp only [par]; omega) (by omega) hc1
+          omega
+      · rw [hcpar] at e
+        rcases hset with ⟨a1, a2⟩ | ⟨a1, a2⟩
+        · rw [hl] at a1
+          have := win_onPath hinv a1.symm
+          obtain ⟨n3, hn3⟩ := this
+          have := onPath_unique hn3 hn1 (by rw [hcpar]; simp only [par]; omega) (by omega) hc1
+          omega
+        · rw [hwinp] at a2
+          have := win_onPath hinv a2.symm
+          obtain ⟨n3, hn3⟩ := this
+          have := onPath_unique hn3 hn1 (by rw [hcpar]; simp only [par]; omega) (by omega) hc1
+          omega
+
+end runbound
+
 end PqModel.Merge
